@@ -51,10 +51,7 @@ def expect_run(live, tick, e0, duration, alt):
     """Closed-form verdict of Sim::run: -> (kind, steps, exact) with kind in
     ok | software | panic | software-or-panic | duration."""
     INF = 10 ** 18
-    clients = [d for d in live if d["client"]]
     exact = tick % MS == 0
-    if not clients:
-        return "ok", 0, True          # caller checks for registered clients at all
     M, E, kinds = 1, INF, set()
     for d in live:
         kc, end, kp, ex = predicted(d, tick, e0, alt)
